@@ -1574,7 +1574,8 @@ AI_CONTENT = ["alpha", "  beta  ", "say \"hi\"", "back\\slash", "tab\there", "é
 
 
 def c19_scenario(rnd, k, fault_kind):
-    nblocks = rnd.randint(1, 5)
+    # one scenario in six has 9-24 AI blocks (more than any in-flight limit or pool of workers)
+    nblocks = rnd.randint(9, 24) if k % 6 == 4 else rnd.randint(1, 5)
     files, plan, asyncs, patterns = {}, {}, [], []
     fault_at = rnd.randrange(nblocks) if fault_kind else None
     made = []
@@ -1939,8 +1940,10 @@ def _c11_run(rep, tier, seed, tr):
     _c11_src(rep, tier, seed, tr)
     # both asynchronous validators reporting (partly on the same file, with low severities, with faults): the report and the
     # exit status through the binary against the fake endpoint
-    rep.rules.append("plus 30 (thorough: 300) check-ai scenarios with scripted blocks in the same files through the binary")
+    rep.rules.append("plus 30 (thorough: 300) check-ai scenarios with scripted blocks in the same files through the binary, and 300 (thorough: 3000) runs with 1-40 scripted blocks in-process")
     c19_run(rep, tier, seed + 1, tr, n_override=n_for(tier, 30, 300))
+    rows = K.run_component(rep.prop, "lua", [], seed, n_for(tier, 300, 3000), "thorough")   # the thorough tier's block counts (up to 40)
+    K.correspondence(rep, rows, "lua (report)", lambda c, i, m: len(i.get("run", {}).get("diags", [])) >= 1, known=K.load_known(rep.prop))
 CHECKS["C11"]["run"] = _c11_run
 
 
